@@ -100,7 +100,7 @@ fn member_names(v: &Value, out: &mut Vec<String>) {
 }
 
 fn plain(base: Base, fmt: Fmt) -> Case {
-    Case { base, faults: vec![], wire: vec![], fmt, session: None, resolver: Resolver::Directory, kb_enc: KbEnc::Absent, extra: vec![], expand: None, hold_s: 0 }
+    Case { base, faults: vec![], wire: vec![], fmt, session: None, resolver: Resolver::Directory, kb_enc: KbEnc::Absent, extra: vec![], expand: None, hold_s: 0, escapes: false }
 }
 
 fn rand_char(rng: &mut Rng) -> char {
@@ -597,6 +597,7 @@ pub fn gen_c10(rng: &mut Rng, tier: Tier) -> MsgScn {
             _ => {}
         }
         // JSON-envelope variants
+        c.escapes = rng.chance(1, 4);
         c.kb_enc = *rng.pick(&[KbEnc::Absent, KbEnc::Null, KbEnc::Empty]);
         if rng.chance(1, 3) {
             c.extra = vec![("unknown_member".into(), json!({"x": [1, 2, 3]})), ("header".into(), json!({"kid": "k1"}))];
